@@ -175,6 +175,12 @@ impl DecompressorOxide {
         self.table_sizes[DIST_TABLE] = dist.len() as u16;
     }
 
+    /// Set the code lengths of the code-length code (the table `init_tree` builds when
+    /// `block_type == 2`).
+    pub fn verif_set_code_size_huffman(&mut self, lens: &[u8; MAX_HUFF_SYMBOLS_2]) {
+        self.code_size_huffman = *lens;
+    }
+
     /// A decoder whose every field (arrays included) is an unconstrained
     /// symbolic value, in a valid automaton state.
     #[cfg(kani)]
